@@ -34,6 +34,11 @@ var alphabets = func() [][]string {
 		out = append(out, []string{"a", "a" + sep + "b", "b" + sep + "a", "b", "a" + sep + "b" + sep + "a"})
 	}
 	out = append(out, []string{"a", "A", "aa", "Aa", "aA"}, []string{"1", "01", "10", "1.0", "0x1"}, []string{"true", "null", "~", "no", "0"})
+	big := make([]string, 400) // the last alphabet: enough names for the large graphs
+	for i := range big {
+		big[i] = fmt.Sprintf("n%03d", i)
+	}
+	out = append(out, big)
 	return out
 }()
 
@@ -379,13 +384,46 @@ func main() {
 	case "binary3":
 		all("binary", 3, true, false)
 	case "names3": // every digraph on <=3 stages under every adversarial naming alphabet
-		for alpha = 1; alpha < len(alphabets); alpha++ {
+		for alpha = 1; alpha < len(alphabets)-1; alpha++ {
 			all("direct", 3, true, true)
 			all("config", 3, true, false)
 		}
 	case "names4":
-		for alpha = 1; alpha < len(alphabets); alpha++ {
+		for alpha = 1; alpha < len(alphabets)-1; alpha++ {
 			all("direct", 4, true, false)
+		}
+	case "large": // sizes beyond the exhaustive ones, around powers of two: sparse shapes whose verdict is known
+		bigA := len(alphabets) - 1
+		for _, n := range []int{16, 17, 31, 32, 33, 63, 64, 65, 66, 100, 128, 129, 130, 257, 300} {
+			ident, rev, inter := make([]int, n), make([]int, n), make([]int, n)
+			for i := 0; i < n; i++ {
+				ident[i], rev[i] = i, n-1-i
+				if i%2 == 0 {
+					inter[i] = i / 2
+				} else {
+					inter[i] = n - 1 - i/2
+				}
+			}
+			var chain, ring, tailLoop, headLoop, layered, selfLast [][2]int
+			for i := 1; i < n; i++ {
+				chain = append(chain, [2]int{i, i - 1})
+			}
+			ring = append(append(ring, chain...), [2]int{0, n - 1})
+			tailLoop = append(append(tailLoop, chain...), [2]int{n - 2, n - 1}) // the last two stages depend on each other
+			headLoop = append(append(headLoop, chain...), [2]int{0, 1})
+			selfLast = append(append(selfLast, chain...), [2]int{n - 1, n - 1})
+			for i := n / 2; i < n; i++ { // two layers: every stage of the upper half depends on two stages of the lower half
+				layered = append(layered, [2]int{i, i - n/2}, [2]int{i, (i - n/2 + 1) % (n / 2)})
+			}
+			for _, es := range [][][2]int{nil, chain, ring, tailLoop, headLoop, selfLast, layered} {
+				for _, p := range [][]int{ident, rev, inter} {
+					for _, route := range []string{"direct", "config"} {
+						if do(graphCase{N: n, Edges: es, Order: p, Route: route, Alpha: bigA}) {
+							goto done
+						}
+					}
+				}
+			}
 		}
 	case "direct5", "direct5-7": // n=5: all labelled graphs with <=5 (direct5-7: <=7) edges in three declaration orders (every labelling is enumerated, so every order of every shape is met)
 		n := 5
@@ -411,6 +449,7 @@ func main() {
 		fmt.Fprintln(os.Stderr, "unknown unit")
 		os.Exit(2)
 	}
+done:
 	res.Nontrivial = int64(len(shapes))
 	res.Configs = res.Evaluations
 	res.Write()
